@@ -8,7 +8,7 @@ namespace GlmVerif.C11
 
 /-- unfold every definition of `Hand/C11.lean` (32-bit part) -/
 macro "c11_unfold" : tactic => `(tactic|
-  simp only [min, max, clamp, mixb, step, abs, ofBool, sub01, sign, min3, min4, max3, max4,
+  simp -zeta only [min, max, clamp, mixb, step, abs, ofBool, sub01, sign, min3, min4, max3, max4,
     fmin2, fmax2, fmin2_fallback, fmax2_fallback, fmin3, fmin4, fmax3, fmax4, fclamp,
     vfmin3, vfmin4, vfmax3, vfmax4, glmIsnan, glmIsinf,
     isMinOf2, isMaxOf2, isMinOf3, isMaxOf3, isMinOf4, isMaxOf4, isClampOf,
@@ -19,6 +19,20 @@ macro "c11_unfold" : tactic => `(tactic|
     lt, le, feq, gt, ge, same, isNaN, isInf, isFinite, isZero, signBit, neg, key, mag,
     expo, sig, eff, fZero, fOne, fNegOne, fHalf, fTwo, fNaN] at *)
 
-macro "c11_bv" : tactic => `(tactic| (c11_unfold; bv_decide))
+/-- unfold every definition of the binary64 part (`GlmVerif.C11.D`) -/
+macro "c11d_unfold" : tactic => `(tactic|
+  simp -zeta only [D.min, D.max, D.clamp, D.mixb, D.step, D.abs, D.sub01, D.sign, D.min3, D.min4, D.max3, D.max4,
+    D.fmin2, D.fmax2, D.fmin3, D.fmin4, D.fmax3, D.fmax4, D.fclamp,
+    D.vfmin3, D.vfmin4, D.vfmax3, D.vfmax4,
+    D.isMinOf2, D.isMaxOf2, D.isMinOf3, D.isMaxOf3, D.isMinOf4, D.isMaxOf4, D.isClampOf,
+    D.fadd, D.fsub, D.fmul2, D.fdiv2, D.roundPack, D.clz56, D.f2i, D.f2iDefined, D.f2u, D.f2uDefined,
+    D.fract, D.fmod2IsZero, D.roundEven, D.iround, D.uround, D.wrapClamp, D.wrapRepeat, D.mirrorClamp, D.mod2, D.mirrorRepeat,
+    D.truncS, D.floorS, D.ceilS, D.roundS, D.rintS, D.isInt, D.isEvenInt, D.fracMask,
+    D.lt, D.le, D.feq, D.gt, D.ge, D.same, D.isNaN, D.isInf, D.isFinite, D.isZero, D.signBit, D.neg, D.key, D.mag,
+    D.expo, D.sig, D.eff, D.fZero, D.fOne, D.fNegOne, D.fHalf, D.fTwo, D.fNaN] at *)
+
+macro "c11d_bv" : tactic => `(tactic| (c11d_unfold <;> bv_decide))
+
+macro "c11_bv" : tactic => `(tactic| (c11_unfold <;> bv_decide))
 
 end GlmVerif.C11
